@@ -50,6 +50,7 @@ type Exec struct {
 	cfg Config
 
 	refRoot    map[string]string // reference term -> its allocation root (see setRoot)
+	keySt      *State            // state that receives the projection instances of tuple map keys
 	rootNum    map[string]int    // allocation root -> its allocation number
 	refUB      map[string]int    // opaque reference term -> n with term <= refK*(alloc0+n)
 	fresh      int
